@@ -3,7 +3,7 @@
 (* focus area.  State = the text so far + the machine state of pass 1 after it.  Every invariant is     *)
 (* evaluated on the completed text (open macro expansions and sections closed).                        *)
 EXTENDS Symbols
-CONSTANTS MaxLen, MaxDepth, Focus, CaseModes
+CONSTANTS MaxLen, MaxDepth, Focus, CaseModes, Devs
 
 VARIABLES prog, cs, s
 vars == <<prog, cs, s>>
@@ -45,7 +45,7 @@ Alphabet(i) ==
           [k |-> "REF", nm |-> N("sym"), q |-> NoQ], [k |-> "REF", nm |-> N("sym"), q |-> QGlob],
           [k |-> "TDEF", t |-> "-"], [k |-> "TREF", t |-> "-", c |-> 1]}
 
-Init == prog = <<>> /\ cs \in CaseModes /\ s = InitS(cs)
+Init == prog = <<>> /\ cs \in CaseModes /\ s = InitS(cs, Devs)
 
 Next == /\ Len(prog) < MaxLen
         /\ \E st \in Alphabet(Len(prog) + 1) :
@@ -68,16 +68,14 @@ Closed(p) ==
 DevFree(p) ==
   LET A == Analyse(cs, p)
       D == Deviations(A, Entries(A))
-  IN /\ PopVIntoConstant => "popv_const" \notin D
-     /\ NamedTmpByLastGlobal => "dd_same_name" \notin D
-     /\ EmptyMacroPopsOuter => "empty_macro_nested" \notin D
+  IN D \cap Devs = {}
 
 \* ---- the property ------------------------------------------------------------------------------------
 \* the machine (all passes) and the manual agree: errors, and every word the manual is definite about
 LookupAgreesWithManual ==
   LET p == Closed(prog)
       X == Expect(cs, p)
-      R == RunAll(cs, p)
+      R == RunAll(cs, Devs, p)
   IN (~X.silent /\ DevFree(p)) =>
        /\ X.err => R.errs > 0
        /\ R.errs > 0 => X.err \/ X.mayErr
@@ -88,13 +86,13 @@ LookupAgreesWithManual ==
 ExtraPassAgrees ==
   LET p == Closed(prog)
       X == Expect(cs, p)
-      R == RunExtra(cs, p)
+      R == RunExtra(cs, Devs, p)
   IN (~X.silent /\ DevFree(p) /\ ~X.err /\ ~X.mayErr) =>
        /\ R.errs = 0 /\ ~R.repass
        /\ \A k \in 1..Len(X.words) : X.words[k].definite => R.out[k].v = X.words[k].v
 
 \* the pass loop needs at most two passes for these programs
-ConvergesInTwo == LET R == RunAll(cs, Closed(prog)) IN R.errs > 0 \/ (~R.repass /\ R.pass <= 2)
+ConvergesInTwo == LET R == RunAll(cs, Devs, Closed(prog)) IN R.errs > 0 \/ (~R.repass /\ R.pass <= 2)
 
 \* the section stack mirrors the nesting of the text (while no structural error happened)
 StackMirrorsText ==
